@@ -93,9 +93,14 @@ def r3_1(ctx: Ctx) -> List[Tuple[Optional[FuncInfo], str, ast.Call, str]]:
     for fn, path, root in _scopes(ix):
         if not path.startswith(("src/primaite/game", "src/primaite/session", "src/primaite/simulator", "src/primaite/__init__")):
             continue
+        # locals bound to a Generator (x = ...default_rng(...)): draws on them are generator draws whatever the local is called
+        gen_locals = {t.id for a in ast.walk(root) if isinstance(a, ast.Assign) and isinstance(a.value, ast.Call)
+                      and (attr_chain(a.value.func) or [""])[-1] == "default_rng" for t in a.targets if isinstance(t, ast.Name)}
         for n, lam in scope_nodes(fn, root):
             if isinstance(n, ast.Call):
                 k = _source_kind(n)
+                if k is None and isinstance(n.func, ast.Attribute) and isinstance(n.func.value, ast.Name) and n.func.value.id in gen_locals:
+                    k = "generator-draw"
                 if k == "seeded-import":
                     # only if the name is imported from random / numpy.random
                     mi = ix.by_path[path]
